@@ -160,6 +160,8 @@ def translate(ctx, chk, ref):
     if body is None:
         chk.instance('R-TRANSLATE', 'Screen::draw', 'draw found', False, what='Screen::draw not found', undischarged=True)
         return
+    from .rules_screen import closures_of
+    scope = closures_of(ctx, {draw})      # draw, its closures and its private helpers
     n = 0
     for active in (0, 1):
         for (g0n, g1n) in (('IBMPC_MAP', 'VT100_MAP'), ('LAT1_MAP', 'VAX42_MAP')):
@@ -176,14 +178,14 @@ def translate(ctx, chk, ref):
                 stored = []
 
                 def ehook(c, ev, stored=stored):
-                    if ev[0] == 'map.insert' and len(ev) > 3 and isinstance(ev[3], StructV) and ev[3].ty.endswith('CharOpts') and c.fr is not None and c.fr.func == draw:
+                    if ev[0] == 'map.insert' and len(ev) > 3 and isinstance(ev[3], StructV) and ev[3].ty.endswith('CharOpts') and c.fr is not None and c.fr.func in scope:
                         d = ev[3].fields.get('data')
                         stored.append(d.known if isinstance(d, StrV) else None)
                 eng.event_hook = ehook
                 measured = []
 
                 def whook(kind, st_, fr_, bi_, *a, measured=measured):
-                    if kind == 'width' and fr_ is not None and (fr_.func == draw or fr_.func in prog.closures_of.get(draw, [])):
+                    if kind == 'width' and fr_ is not None and fr_.func in scope:
                         ch = a[0]
                         measured.append(ch.known if isinstance(ch, CharV) else None)
                     return None
